@@ -101,6 +101,34 @@ def check_sort_top(chk):
         chk.bad('C19.S', mod, 'sort_data', '; '.join(norm(c)[:80] for c in calls) or 'no sort', 'dataSort must be the stable list sort keyed by the value comparator', node=g)
 
 
+def check_csv_dialect(chk):
+    """C19.V: dataParseCSV reads the dialect the typed-table writer produces (comma separated, quotes doubled, every other character literal)"""
+    lib = chk.repo.module('library')
+    n = 0
+    for fname, func in lib.funcs.items():
+        for node in walk_no_nested(func):
+            if isinstance(node, ast.Call) and (call_name(node) or '').split('.')[-1] in ('DictReader', 'reader'):
+                n += 1
+                kws = {k.arg: k.value for k in node.keywords if k.arg}
+                wrong = []
+                if 'escapechar' in kws and not (isinstance(kws['escapechar'], ast.Constant) and kws['escapechar'].value is None):
+                    wrong.append(f"escapechar={norm(kws['escapechar'])}: a backslash in a cell is consumed as an escape (paths, regex text, a trailing \\ shift the cell boundaries)")
+                if 'doublequote' in kws and isinstance(kws['doublequote'], ast.Constant) and kws['doublequote'].value is False:
+                    wrong.append('doublequote=False: a doubled quote inside a quoted cell no longer denotes one quote')
+                if 'delimiter' in kws and not (isinstance(kws['delimiter'], ast.Constant) and kws['delimiter'].value == ','):
+                    wrong.append(f"delimiter={norm(kws['delimiter'])}")
+                if 'quoting' in kws or 'quotechar' in kws:
+                    wrong.append('a non-default quoting / quotechar')
+                if 'dialect' in kws or (len(node.args) > 1 and (call_name(node) or '').endswith('reader')):
+                    wrong.append('a non-default dialect')
+                if wrong:
+                    chk.bad('C19.V', lib, fname, norm(node)[:100], f'the CSV reader is configured with {"; ".join(wrong)}: cells of a typed table written as CSV are not read back unchanged', node=node)
+                else:
+                    chk.ok('C19.V', f'{fname}: the CSV reader uses the comma / doubled-quote dialect with no escape character ({norm(node)[:60]})')
+    if n == 0:
+        raise Unrecognised('C19.V', 'no csv reader call found in library.py', lib.rel)
+
+
 def check_csv_inference(chk):
     mod = chk.repo.module('data')
     func = mod.func('validate_data', 'C19.V')
@@ -152,6 +180,7 @@ def run(chk):
     chk.guard('C19.F', check_filter_and_field, chk)
     chk.guard('C19.A', check_aggregate, chk)
     chk.guard('C19.S', check_sort_top, chk)
+    chk.guard('C19.V', check_csv_dialect, chk)
     chk.guard('C19.V', check_csv_inference, chk)
     # shared clauses
     from . import c12, c16, c09
